@@ -369,6 +369,47 @@ static void fam_c02_pingpong(G& g, Plan& p) {
   }
 }
 
+
+// the owner gives full pages away (mi_collect_reduce / target_segments_per_thread force-abandon whole segments) while other
+// threads free blocks in exactly those pages: a block must end up on exactly one list of exactly one owner
+static void fam_c02_forceabandon(G& g, Plan& p) {
+  int nt = 2 + (int)g.below(3);
+  const bool mid = g.chance(0.6);
+  size_t req; size_t per_page;
+  if (mid) { req = g.pick<size_t>({40000, 100000, 200000, 200000}) + g.below(5000); per_page = (512 * KiB) / (req + 64); if (per_page < 1) per_page = 1; }
+  else { auto bs = bin_sizes(); size_t b = bs[24 + g.below(20)]; req = (g.padded && b > 8) ? b - 8 : b; per_page = (64 * KiB) / b; }
+  int n = (int)(per_page * (3 + g.below(12))); if (n > 400) n = 400; if (n < 12) n = 12;
+  p.nslots = n + 40; p.progs.resize((size_t)nt);
+  if (g.chance(0.3)) set_env(p, "TARGET_SEGMENTS_PER_THREAD", g.pick({1, 2, 3}));
+  if (g.chance(0.3)) set_env(p, "ABANDONED_RECLAIM_ON_FREE", g.pick({0, 1}));
+  if (g.chance(0.2)) set_env(p, "DISALLOW_ARENA_ALLOC", 1);
+  if (g.chance(0.75)) {
+    p.cfg.strategy = ST_TARGETED; p.cfg.hot_p = g.pick({0.3, 0.7}); p.cfg.switch_p = g.pick({0.0, 0.002});
+    p.cfg.hot_funcs = {"_mi_page_force_abandon", "mi_segment_force_abandon", "_mi_heap_delayed_free_all", "_mi_heap_delayed_free_partial", "mi_free_block_delayed_mt",
+                       "_mi_page_use_delayed_free", "_mi_page_try_use_delayed_free", "_mi_free_delayed_block", "mi_free_block_mt"};
+  }
+  Program& P0 = p.progs[0];
+  for (int i = 0; i < n; i++) P0.ops.push_back(mk(OP_malloc, i, req - g.below(16)));
+  spawn_all(p, nt, true, g);
+  int rounds = 6 + (int)g.below(30);
+  for (int i = 0; i < rounds; i++) {
+    int k = (int)g.below(10);
+    if (k < 4) P0.ops.push_back(mk(OP_collect_reduce, -1, g.pick<uint64_t>({0, 1, 32 * MiB, 64 * MiB})));
+    else if (k < 7) P0.ops.push_back(mk(OP_malloc, (int)g.below((uint64_t)p.nslots), req - g.below(16)));
+    else if (k < 8) P0.ops.push_back(mk(OP_malloc, n + (int)g.below(40), 3 * MiB + g.below(8 * MiB)));     // asks for a fresh segment (try_abandon with a target)
+    else if (k < 9) P0.ops.push_back(mk(OP_free, (int)g.below((uint64_t)p.nslots)));
+    else P0.ops.push_back(mk(OP_check_owner, (int)g.below((uint64_t)n)));
+  }
+  // every thread but the owner frees (and a little re-allocates so that it can reclaim what the owner gave away)
+  for (int i = 0; i < n; i++) { int t = 1 + (int)g.below((uint64_t)nt - 1); p.progs[(size_t)t].ops.push_back(mk(OP_free, i)); if (g.chance(0.05)) p.progs[(size_t)t].ops.push_back(mk(OP_malloc, n + (int)g.below(40), req)); }
+  for (int t = 1; t < nt; t++) { auto& ops = p.progs[(size_t)t].ops; if (g.chance(0.5)) for (size_t i = ops.size(); i > 1; i--) std::swap(ops[i - 1], ops[g.below(i)]); }
+  for (int t = 1; t < nt; t++) P0.ops.push_back(mk(OP_join, t));
+  P0.ops.push_back(mk(OP_verify_all));
+  P0.ops.push_back(mk(OP_census));
+  P0.ops.push_back(mk(OP_free_all));
+  P0.ops.push_back(mk(OP_giveback_check, -1, 4));
+}
+
 // owner loops malloc / heap_collect / collect(true) while remotes free into the same pages
 static void fam_c02_ownercollect(G& g, Plan& p) {
   int nt = 2 + (int)g.below(3);
@@ -1370,6 +1411,7 @@ static const FamilyDef FAMILIES[] = {
   {"c14_arena", "C14", fam_c14_arena, 0, true},
   {"c05_pagecycle", "C05", fam_c05_pagecycle, 1, false},
   {"c09_adopt_race", "C09", fam_c09_adopt_race, 0, true},
+  {"c02_forceabandon", "C02", fam_c02_forceabandon, 0, true},
   {"c15_arenas", "C15", fam_c15_arenas, 0, true},
   {"c17_misuse", "C17", fam_c17_misuse, 1, true},
   {"c03_align", "C03", fam_c03_align, 1, false},
